@@ -411,7 +411,12 @@ func (a *Act) applyContract(st *State, con *Contract, f *ssa.Function, sig *type
 			vc.oblige(name, "pre", a.props, a.pos(pos), st.guard, "false", "contract error: "+err.Error()+" in: "+c.Text)
 			continue
 		}
+		n0 := len(vc.obls)
 		vc.oblige(name, "pre", a.props, a.pos(pos), st.guard, v, "requires "+c.Text+"  ["+c.Line+"]")
+		if len(c.Props) > 0 && len(vc.obls) > n0 {
+			// requires[Cxx]: callers prove it under those properties only (assumed under the others)
+			vc.obls[len(vc.obls)-1].OnlyProps = c.Props
+		}
 	}
 	for _, c := range con.PanicsIf {
 		v, err := env.evalBool(c.Expr)
